@@ -4,7 +4,9 @@ PROP = {
     "level": "exploration",
     "technique": ("runtime monitor: btcd script interpreter on every input of every justice transaction the real breach code "
                   "(NewBreachRetribution -> newRetributionInfo -> RetributionStore -> createJusticeTx / updateBreachInfo) builds "
-                  "for every revoked height of PRNG two-party channel histories, from a reloaded copy of the victim's database only"),
+                  "for every revoked height of PRNG two-party channel histories, from a reloaded copy of the victim's database only; "
+                  "plus the victim's real started chainWatcher goroutine, on a channel state instance decoded at the victim's last "
+                  "restart, fed the revoked commitment as the funding-outpoint spend"),
     "level_text": ("Two real LightningChannel machines on real bbolt channeldbs run PRNG asynchronous histories (30-60 actions + "
                    "drain + tail traffic; HTLCs both directions incl. dust boundary/duplicates, settles, fails, fee updates, "
                    "reconnects with reload of both sides; 7 channel types x either opener; 1/3 of the cases with the revocation log "
@@ -27,11 +29,32 @@ PROP = {
                    "convertToSecondLevelRevoke runs, every advanced HTLC must then be pursued on the second-level output and not on "
                    "the spent one, and every input of all rebuilt variants incl. the per-HTLC second-level sweeps passes the "
                    "interpreter against the real second-level outputs. Negative control: the same pipeline with the revocation "
-                   "secret of another height must be rejected by the interpreter (else t.Fatalf => inconclusive)."),
+                   "secret of another height must be rejected by the interpreter (else t.Fatalf => inconclusive). "
+                   "(6) STARTED chain watchers on STALE instances (c04cw_test.go): at case start and at every reconnect (= restart: "
+                   "both parties are reloaded from disk) 5 OpenChannel instances per party are decoded from that party's LIVE "
+                   "database (FetchAllChannels, as ChainArbitrator.Start does) and a real chainWatcher is created and Start()ed on "
+                   "each (mock notifier, the party's signer, GetStateNumHint, recording contractBreach callback, subscription to "
+                   "all close event streams; alternately single-confirmation mode and the production capacity-scaled "
+                   "multi-confirmation mode: spend -> pending -> confirmation notification -> handleCommitSpend). The history "
+                   "then goes on through the LightningChannel's own instance. At the end, for <= 4 revoked heights per victim "
+                   "(the newest revoked, the commitment that was current when the instance was loaded, the newest one revoked "
+                   "before the load, a PRNG one revoked before the load, PRNG fill) the cheater's recorded revoked commitment is "
+                   "delivered to one watcher as the spend of the funding outpoint through the notifier channel; completion is "
+                   "awaited with blockbeats pushed through the watcher's BeatConsumer (no sleeping; 30 s watchdog). Oracle "
+                   "state_recognised: closeObserver -> handleCommitSpend must hand a BreachRetribution for exactly that height and "
+                   "txid to contractBreach - not a logged error, not a remote/local unilateral or cooperative close event, not the "
+                   "data-loss commit-point wait, not nothing (judged only where NewBreachRetribution on the reloaded state "
+                   "succeeds, i.e. the data is persisted); the dispatched retribution then goes through (3) and (4). Negative "
+                   "control: the cheater's CURRENT commitment through another stale watcher must come out as a remote unilateral "
+                   "close and never as a breach (else t.Fatalf)."),
     "level_note": ("Held on the histories executed (counts in evidence). Second-level clause only for states snapshotted while "
                    "current (PRNG 1/6 per action + the quiescent state), not for every revoked height; legacy (pre-TLV) "
-                   "revocation-log format, aux/custom-channel leaves and resolution blobs, the chain watcher's own spend "
-                   "dispatch and exactRetribution's publish/retry loop are not exercised; justice fee rate fixed at the floor; "
+                   "revocation-log format, aux/custom-channel leaves and resolution blobs, "
+                   "exactRetribution's publish/retry loop, the ChainArbitrator/BreachArbitrator hand-off behind the contractBreach "
+                   "callback, reorgs of the breach transaction (NegativeConf) and a real ChainNotifier are not exercised; the "
+                   "started-watcher path judges a sample of <= 4 revoked heights per victim and history, not all of them (all "
+                   "heights go through the watcher's handler functions on the reloaded state); a watcher that neither dispatches, "
+                   "logs an error nor returns within 30 s is reported inconclusive, not as a violation; justice fee rate fixed at the floor; "
                    "<= ~15 HTLC outputs per state; height-0 (fixture-signed) commitments skipped. KNOWN FINDING KF-C04-1 (lease "
                    "channel, victim is initiator: justice nLockTime 0 vs CLTV(lease expiry) on the own to_remote output) fires "
                    "on the pinned tree under key CommitmentToRemoteConfirmed/lease."),
@@ -39,24 +62,35 @@ PROP = {
     "rule": ("case = (channel params, 30-60 PRNG actions, reconnects 1/25, cheater snapshots 1/6, noAmtData 1/3) from (seed, index); "
              "non-trivial = case with >=1 revoked state carrying >=1 non-dust HTLC output; distinct = distinct (channel type, "
              "cheater is opener, #HTLC-outputs bucket, incoming+outgoing present, with/without spendTx, with/without amount "
-             "data) plus (type, opener, bucket, second-level, via-store) signatures over the judged revoked states"),
+             "data) plus (type, opener, bucket, second-level, via-store) and (type, opener, bucket, started-watcher, revoked "
+             "after the watcher's instance was loaded, amount data) signatures over the judged revoked states"),
     "assumptions": ["the revoked transaction is the fully signed commitment the engine recorded from the cheater before it revoked it (heights >= 1)",
                     "victim signs with the fixture MockSigner holding its channel base keys; sweep script and fee estimator are fixtures",
-                    "the cheater's second-level transactions are published unmodified (1-in-1-out), as convertToSecondLevelRevoke assumes (output index == input index)"],
+                    "the cheater's second-level transactions are published unmodified (1-in-1-out), as convertToSecondLevelRevoke assumes (output index == input index)",
+                    "the chain watcher's channel state instance is the one decoded from the database at the party's last (re)start and is "
+                    "not the instance the LightningChannel advances (as in lnd: ChainArbitrator.Start -> FetchAllChannels vs. the link's channel)"],
     "units": [{
         "name": "breach", "pkg": "contractcourt", "test": "TestVerifC04",
-        "files": ["contractcourt/c04_test.go"], "exports": {"lnwallet": E1X},
+        "files": ["contractcourt/c04_test.go", "contractcourt/c04cw_test.go"], "exports": {"lnwallet": E1X},
         "shards": {"quick": 8, "thorough": 16},
         "watchdog": {"quick": 1200, "thorough": 7200},
         "floors": {"quick": {"nontrivial": 150, "revoked_states_with_htlc_outputs": 2000,
                              "oracle_watcher_dispatch_evals": 2500, "oracle_recorded_outputs_evals": 4000,
                              "oracle_justice_inputs": 40000, "oracle_second_level_inputs": 2000,
                              "second_level_states": 600, "store_roundtrips": 1500, "negctl_evals": 1500,
-                             "noamt_cases": 50, "reconnects": 250},
+                             "noamt_cases": 50, "reconnects": 250,
+                             "oracle_cw_state_recognised_evals": 1200, "oracle_cw_retribution_evals": 1200,
+                             "cw_heights_revoked_after_load": 1000, "cw_heights_revoked_before_load": 140,
+                             "cw_states_with_htlc_outputs": 1000, "cw_negctl_evals": 300,
+                             "cw_multi_conf_deliveries": 750, "cw_single_conf_deliveries": 750},
                    "thorough": {"nontrivial": 6000, "revoked_states_with_htlc_outputs": 80000,
                                 "oracle_watcher_dispatch_evals": 100000, "oracle_recorded_outputs_evals": 170000,
                                 "oracle_justice_inputs": 1500000, "oracle_second_level_inputs": 75000,
                                 "second_level_states": 24000, "store_roundtrips": 55000,
-                                "negctl_evals": 65000, "noamt_cases": 2000, "reconnects": 10000}},
+                                "negctl_evals": 65000, "noamt_cases": 2000, "reconnects": 10000,
+                                "oracle_cw_state_recognised_evals": 45000, "oracle_cw_retribution_evals": 45000,
+                                "cw_heights_revoked_after_load": 38000, "cw_heights_revoked_before_load": 5000,
+                                "cw_states_with_htlc_outputs": 37000, "cw_negctl_evals": 11000,
+                                "cw_multi_conf_deliveries": 28000, "cw_single_conf_deliveries": 28000}},
     }],
 }
